@@ -10,25 +10,36 @@ def check_one(hyps, goal, background, timeout_ms=20000, want_model=False, quick=
     t0 = time.time()
     verdict, model, why = 'unknown', None, ''
     # most obligations are e-matching proofs: MBQI off first (fast), then the default, then another seed
-    plan = (({'smt.mbqi': False}, max(timeout_ms // 4, 2000)), ({}, timeout_ms // 2),
-            ({'smt.mbqi': False, 'smt.random_seed': 7, 'smt.arith.solver': 2}, timeout_ms))
-    if quick:
-        plan = (({'smt.mbqi': False}, max(timeout_ms // 4, 2000)),)
-    for cfg, tmo in plan:
-        s = z3.Solver()
+    # e-matching proofs are sensitive to the search order: a few cheap perturbations (seed, order in which the
+    # hypotheses are asserted) before the long attempts.  Any `unsat` is a proof; nothing else is a verdict.
+    short = max(timeout_ms // 8, 1500)
+    plan = [({'smt.mbqi': False}, max(timeout_ms // 4, 2000), 0)]
+    plan += [({'smt.mbqi': False, 'smt.random_seed': sd}, short, sd) for sd in (1, 2, 3)]
+    if not quick:
+        plan += [({}, timeout_ms // 2, 0), ({'smt.mbqi': False, 'smt.random_seed': 7, 'smt.arith.solver': 2}, timeout_ms, 5)]
+    hyps = list(hyps)
+    # every query runs in a z3 context of its own: the verdict of an obligation does not depend on which other
+    # obligations the process discharged before (term numbering in a shared context steers the search)
+    ctx = z3.Context()
+    background = [a.translate(ctx) for a in background]
+    hyps = [h.translate(ctx) for h in hyps]
+    goal = goal.translate(ctx)
+    for cfg, tmo, rot in plan:
+        s = z3.Solver(ctx=ctx)
         s.set('timeout', tmo)
         for k, v in cfg.items():
             s.set(k, v)
         s.add(*background)
-        s.add(*hyps)
-        s.add(Not(goal))
+        hs = hyps if rot == 0 or len(hyps) < 3 else (hyps[::-1] if rot % 2 else hyps[len(hyps) // rot:] + hyps[:len(hyps) // rot])
+        s.add(*hs)
+        s.add(z3.Not(goal))
         r = s.check()
         if r == z3.unsat:
             verdict = 'proved'
             break
         if r == z3.sat:
             verdict = 'sat'
-            model = s.model()
+            model = None      # models of quantified VCs are not used (DESIGN 11.2)
             break
         why = s.reason_unknown()
     return verdict, model, time.time() - t0, why
